@@ -1,6 +1,8 @@
 """C16 - grouping, chunking, sorting and filtering conserve events and time."""
 S = "aw_transform.sort_by."
 DATA = [{}, {"a": 1}, {"a": 2}, {"b": 1}, {"a": 1, "b": 1}, {"a": 1, "b": 2}, {"a": [1, 2]}, {"a": [1, 2], "b": 1}, {"b": 2, "c": 1}]
+# merge keys present with a falsy value are values like any other (they are not "absent")
+DATA_MERGE = DATA + [{"a": ""}, {"a": 0}, {"a": []}, {"a": None}, {"a": "", "b": 1}, {"b": 0}, {"a": "x"}]
 PROP = dict(
     id="C16",
     level="other",
@@ -12,7 +14,7 @@ PROP = dict(
         dict(fn=S + "limit_events"),
         dict(fn="aw_transform.filter_keyvals.filter_keyvals", scope={"list": 4, "data": DATA, "strs": ["a", "b"], "jvs": [1, 2, [1, 2]]}),
         dict(fn="aw_transform.merge_events_by_keys.merge_events_by_keys", bounded_only=True, budget=1500,
-             scope={"list": 4, "data": DATA, "strs": ["a", "b", "c"]}),
+             scope={"list": 4, "data": DATA_MERGE, "strs": ["a", "b", "c"]}),
         dict(fn="aw_transform.chunk_events_by_key.chunk_events_by_key", bounded_only=True, budget=1500,
              scope={"list": 4, "data": [{"a": 1}, {"a": 2}, {"a": 1, "b": 1}, {"a": [1]}], "strs": ["a"]}),
     ],
